@@ -609,6 +609,12 @@ def oracle(case, script, trace, origins, log):
                     bad.append((f"{w}:close_run-not-preceded-by-{before[0][0] if before else 'nothing'}-of-every-device", f"close_run at step {i} preceded by {got}, expected {before}"))
                 elif any(script[j + 1][0] != "send" for j in range(lo, i)):
                     bad.append((f"{w}:close_run-emitted-although-a-cleanup-message-failed", f"step {i}: {trace}"))
+                elif w == "fly_during_wrapper" and devs:
+                    # "complete AND WAIT": the wait that follows the complete messages is for THEIR group
+                    gs = {trace[lo + k][4] for k in range(len(devs))}
+                    wg = trace[lo + len(devs)][4]
+                    if len(gs) != 1 or wg not in gs or wg is None:
+                        bad.append(("fly_during_wrapper:wait-before-collect-is-not-for-the-complete-group", f"step {i}: complete messages carry group(s) {sorted(map(str, gs))}, the wait before collect waits for {wg!r}"))
             if o[1] == "open_run":
                 k = 0
                 while k < len(after) and i + 1 + k < len(trace) and script[i + 1 + k][0] == "send":
@@ -617,6 +623,11 @@ def oracle(case, script, trace, origins, log):
                         bad.append((f"{w}:open_run-not-followed-by-{after[0][0]}-of-every-device", f"open_run at step {i} followed by {trace[i + 1 : i + 1 + len(after)]}, expected {after}"))
                         break
                     k += 1
+                if w == "fly_during_wrapper" and devs and k == len(after):
+                    gs = {trace[i + 1 + q][4] for q in range(len(devs))}
+                    wg = trace[i + 1 + len(devs)][4]
+                    if len(gs) != 1 or wg not in gs or wg is None:
+                        bad.append(("fly_during_wrapper:wait-after-kickoff-is-not-for-the-kickoff-group", f"step {i}: kickoff messages carry group(s) {sorted(map(str, gs))}, the wait after them waits for {wg!r}"))
         return bad
     return bad
 
